@@ -227,7 +227,52 @@ let run_case line =
       ()
   | _ -> prerr_endline ("bad case line: " ^ line)
 
+let lines_mode () =
+  (try while true do
+       let l = input_line stdin in
+       let s = str_of_field (String.trim l) in
+       let ls = lines s in
+       if ls = [] then print_endline "-"
+       else print_endline (String.concat ";" (List.map (fun w -> String.concat "," (List.map (fun c -> string_of_int (int_of_n c)) w)) ls))
+     done with End_of_file -> ());
+  flush stdout
+
+(* canonical S-expression of the Coq parser model's result (same format as grexv ast) *)
+let ws_table : (int * int) array ref = ref [||]
+let in_table a c =
+  let lo = ref 0 and hi = ref (Array.length a - 1) and found = ref false in
+  while not !found && !lo <= !hi do
+    let mid = (!lo + !hi) / 2 in
+    let (x, y) = a.(mid) in
+    if c < x then hi := mid - 1 else if c > y then lo := mid + 1 else found := true
+  done; !found
+let is_ws c = in_table !ws_table (int_of_n c)
+let rec flat_cat r = match r with RCat (a, b) -> flat_cat a @ [b] | _ -> [r]
+let rec flat_alt r = match r with RAlt (a, b) -> flat_alt a @ [b] | _ -> [r]
+let rec sexpr r =
+  match r with
+  | REmpty -> "(empty)"
+  | RLit c -> Printf.sprintf "(lit %d)" (int_of_n c)
+  | RPerl l -> Printf.sprintf "(perl %c)" (Char.chr (int_of_n l))
+  | RBracket items -> "(br " ^ String.concat " " (List.map (fun (a, b) -> Printf.sprintf "%d-%d" (int_of_n a) (int_of_n b)) items) ^ ")"
+  | RStart -> "^" | REnd -> "$"
+  | RGroup (cap, x) -> Printf.sprintf "(grp %s %s)" (if cap then "cap" else "non") (sexpr x)
+  | RRep (x, lo, hi) -> Printf.sprintf "(rep %d %s %s)" (int_of_n lo) (match hi with Some k -> string_of_int (int_of_n k) | None -> "inf") (sexpr x)
+  | RCat _ -> "(cat " ^ String.concat " " (List.map sexpr (flat_cat r)) ^ ")"
+  | RAlt _ -> "(alt " ^ String.concat " " (List.map sexpr (flat_alt r)) ^ ")"
+let ast_mode () =
+  (try while true do
+       let l = input_line stdin in
+       let s = str_of_field (String.trim l) in
+       (match parse is_ws s with
+        | Some (fl, r) -> Printf.printf "flags=%s%s %s\n" (if fl.fl_i then "i" else "") (if fl.fl_x then "x" else "") (sexpr r)
+        | None -> print_endline "NONE")
+     done with End_of_file -> ());
+  flush stdout
+
 let () =
+  if Array.length Sys.argv > 1 && Sys.argv.(1) = "--lines" then (lines_mode (); exit 0);
+  if Array.length Sys.argv > 2 && Sys.argv.(1) = "--ast" then (ws_table := load_ranges Sys.argv.(2); ast_mode (); exit 0);
   engine_d := load_ranges Sys.argv.(1);
   (try while true do
        let l = input_line stdin in
